@@ -81,8 +81,9 @@ def validate_batch(traces, cfg=None, module='FBTrace.tla', timeout=1800, workdir
                                     'kf': re.findall(r'"([^"]+)"', m.group(7))}
         stats = parse_stats(out)
         if len(verdicts) != len(traces) or 'Model checking completed' not in out:
-            raise TlcError('TLC did not produce a verdict for every trace (%d of %d)\n%s'
-                           % (len(verdicts), len(traces), out[-6000:]))
+            i = out.find('Error:')
+            raise TlcError('TLC did not produce a verdict for every trace (%d of %d)\n%s\n...\n%s'
+                           % (len(verdicts), len(traces), out[max(0, i - 200):i + 2500] if i >= 0 else '', out[-3500:]))
         return verdicts, stats, out
     finally:
         if own:
